@@ -23,6 +23,8 @@ RULE = ('Hypothesis-generated histories of add_processor(new or previously remov
         'World.processors after every step and with the call log of every process(dt) (same dt object). '
         ''
         'In ~15% of the cases every re-add turns into a priority walk: the type is added 64-150 times over with priorities fanning out. '
+        ''
+        'Some classes map on_add / on_remove to differently named methods, some take the dt positional-only under another name; an add_processor may be one whose on_add raises. '
         'Non-trivial = >= 3 processors alive at a process() with a priority tie, or an explicit priority 0 or '
         'negative overriding a different default, or a replacement of a same-type processor. Distinct = sha1 of '
         'canonical JSON.')
